@@ -6,8 +6,8 @@ mkdir -p /tmp/seed_reval
 ids="$*"; [ -n "$ids" ] || ids=$(ls "$ROOT/seeded" | grep -E '^C[0-9]+_[0-9]+$')
 for id in $ids; do
   prop="${id%%_*}"
-  MUT_TAG=reval "$ROOT/tools/mutcheck.sh" "$ROOT/seeded/$id/patch.diff" "$prop" > /tmp/seed_reval/$id.txt 2>&1
+  MUT_TAG=${REVAL_TAG:-reval} "$ROOT/tools/mutcheck.sh" "$ROOT/seeded/$id/patch.diff" "$prop" > /tmp/seed_reval/$id.txt 2>&1 < /dev/null
   v=$(grep -E "^VIOLATION" /tmp/seed_reval/$id.txt | head -1)
   if [ -z "$v" ]; then echo "$id MISSED"; elif echo "$v" | grep -q no-failing-input-found; then echo "$id caught-no-input"; else echo "$id caught"; fi
 done
-rm -rf /tmp/hx_reval
+rm -rf /tmp/hx_${REVAL_TAG:-reval}
